@@ -13,7 +13,9 @@ func nums(n int, sep string) string { return seqs2(n, sep, itoa) }
 
 func tri(n int) int { return n * (n + 1) / 2 }
 
-func scaleFamilies() []*scaleFam {
+func scaleFamilies() []*scaleFam { return append(scaleSchemas(), specialFamilies()...) }
+
+func scaleSchemas() []*scaleFam {
 	one := []inFile{{Name: "in.json", Text: "[0]"}}
 	return []*scaleFam{
 		// ---------------------------------------------------------------- C02: rule schedule
@@ -82,14 +84,25 @@ func scaleFamilies() []*scaleFam {
 			prog := "function sum(" + params + ") { return " + seqs2(n, " + ", func(k int) string { return "p" + itoa(k) }) + " }\n" +
 				"function last(" + params + ") { return p" + itoa(n) + " }\n" +
 				"function first(" + params + ") { p" + itoa(n) + " = \"changed\"; return p1 }\n" +
-				"BEGIN { p" + itoa(n) + " = \"global\"; print sum(" + nums(n, ", ") + "), last(" + nums(n, ", ") + "), first(" + nums(n, ", ") + "), p" + itoa(n) + " }\n"
-			return scaleCase{Prog: prog, Want: fmt.Sprintf("%d %d %s global\n", tri(n), n, ifs(n == 1, "changed", "1"))}
+				"function leak() { return p1 is unknown }\nfunction leak2(p" + itoa(n+1) + ") { return p" + itoa((n+1)/2) + " is unknown }\n" +
+				"BEGIN { p" + itoa(n) + " = \"global\"; print sum(" + nums(n, ", ") + "), last(" + nums(n, ", ") + "), first(" + nums(n, ", ") + "), p" + itoa(n) + ", leak(), leak2(1) }\n"
+			return scaleCase{Prog: prog, Want: fmt.Sprintf("%d %d %s global %s %s\n", tri(n), n, ifs(n == 1, "changed", "1"), ifs(n == 1, "false", "true"), ifs(n == 1, "false", "true"))}
 		}},
 		{Prop: "C08", Name: "a function of n parameters called with n - 1 arguments", Max: 3000, QMax: 600, Build: func(n int) scaleCase {
 			params := seqs2(n, ", ", func(k int) string { return "p" + itoa(k) })
 			prog := "function f(" + params + ") { r = p" + itoa(n) + " is null; p" + itoa(n) + " = 5; return r }\n" +
 				"BEGIN { p" + itoa(n) + " = \"global\"; print f(" + nums(n-1, ", ") + "), f(" + nums(n-1, ", ") + "), p" + itoa(n) + " }\n"
 			return scaleCase{Prog: prog, Want: "true true global\n"}
+		}},
+		{Prop: "C08", Name: "a function that creates n variables, then other calls", Max: 3000, QMax: 600, Build: func(n int) scaleCase {
+			prog := "function make() { " + seqs2(n, "; ", func(k int) string { return fmt.Sprintf("l%d = %d", k, k) }) + "; return l1 + l" + itoa(n) + " }\n" +
+				"function probe() { return l1 is unknown && l" + itoa(n) + " is unknown && l" + itoa((n+1)/2) + " is unknown }\nfunction probe2() { return m1 is unknown && m" + itoa(n) + " is unknown }\nfunction counter() { cnt++; return cnt }\n" +
+				"BEGIN { g = 0 }\n{ print make(), probe(), counter(), counter(); match ($) { v => { " + seqs2(n, "; ", func(k int) string { return fmt.Sprintf("m%d = %d", k, k) }) + " } }\nprint probe2(), probe() }\n"
+			return scaleCase{Prog: prog, Files: []inFile{{Name: "in.json", Text: "[1, 2]"}}, Want: fmt.Sprintf("%d true 1 1\ntrue true\n%d true 1 1\ntrue true\n", n+1, n+1)}
+		}},
+		{Prop: "C08", Name: "a callee n frames below the function whose parameter it assigns", Max: 3000, QMax: 600, Build: func(n int) scaleCase {
+			prog := fmt.Sprintf("function count(total) { down(%d); return total }\nfunction down(k) { if (k == 0) { leaf(); return 0 } return down(k - 1) }\nfunction leaf() { total = total + 1 }\nBEGIN { total = 100; print count(0), total; print count(5), total }\n", n)
+			return scaleCase{Prog: prog, Want: "1 100\n6 100\n"}
 		}},
 		{Prop: "C08", Name: "a chain of n distinct functions each calling the next", Max: 3000, QMax: 600, Build: func(n int) scaleCase {
 			prog := seqs2(n-1, "\n", func(k int) string { return fmt.Sprintf("function f%d(x) { return f%d(x + 1) + 1 }", k, k+1) }) +
@@ -160,8 +173,8 @@ func scaleFamilies() []*scaleFam {
 			ones := func(op string) string { return seqs2(n, " "+op+" ", func(int) string { return "1" }) }
 			prog := "BEGIN { print " + ones("+") + "\nprint 1000000 - " + ones("-") + "\nprint " + seqs2(n, " + ", func(k int) string { return "\"" + string(rune('a'+k%26)) + "\"" }) +
 				"\nprint " + seqs2(n, " && ", func(int) string { return "true" }) + " && 0\nprint " + seqs2(n, " || ", func(int) string { return "0" }) + " || \"x\"\nprint 1 + " +
-				seqs2(n, " + ", func(int) string { return "2 * 3" }) + "\nprint 7 - 2 * " + ones("*") + " - 1 }\n"
-			return scaleCase{Prog: prog, Want: fmt.Sprintf("%d\n%d\n%s\nfalse\ntrue\n%d\n4\n", n, 1000000-n, seqs2(n, "", func(k int) string { return string(rune('a' + k%26)) }), 1+6*n)}
+				seqs2(n, " + ", func(int) string { return "2 * 3" }) + "\nprint 7 - 2 * " + ones("*") + " - 1\nprint 1 + 2 + \"s\" + " + ones("+") + "\nprint true + null + " + ones("+") + " + \"s\" + 1 + 2 }\n"
+			return scaleCase{Prog: prog, Want: fmt.Sprintf("%d\n%d\n%s\nfalse\ntrue\n%d\n4\n3s%s\n%ds12\n", n, 1000000-n, seqs2(n, "", func(k int) string { return string(rune('a' + k%26)) }), 1+6*n, strings.Repeat("1", n), n+1)}
 		}},
 		{Prop: "C06", Name: "n nested parentheses, signs, negations and brackets", Max: 2000, QMax: 400, Build: func(n int) scaleCase {
 			prog := "BEGIN { print " + strings.Repeat("(", n) + "1" + strings.Repeat(")", n) + " + 1\nprint " + strings.Repeat("- ", n) + "1\nprint " + strings.Repeat("! ", n) + "true\nprint " +
@@ -239,13 +252,17 @@ func scaleFamilies() []*scaleFam {
 			return scaleCase{Prog: prog, Want: nums(n, " ") + "\n" + seqs2(n, " ", func(k int) string { return []string{"s", "null", "true", "[" + itoa(k) + "]", "1.5"}[k%5] }) + "\n"}
 		}},
 		{Prop: "C17", Name: "arrays of n elements and objects of n keys printed whole", Max: 5000, QMax: 1100, Build: func(n int) scaleCase {
-			obj := seqs2(n, ", ", func(k int) string { return fmt.Sprintf("k%s: %d", pad(n+1-k, 5), n+1-k) })
-			prog := "BEGIN { a = [" + nums(n, ", ") + "]; print a; o = {" + obj + "}; print o; print [a, \"s\"][1], [o][0].k" + pad(n, 5) + " }\n"
-			return scaleCase{Prog: prog, Want: "[" + nums(n, ", ") + "]\n{" + seqs2(n, ", ", func(k int) string { return fmt.Sprintf("\"k%s\": %d", pad(k, 5), k) }) + "}\ns " + itoa(n) + "\n"}
+			obj := seqs2(n, ", ", func(k int) string { return fmt.Sprintf("customer_key_%s: %d", pad(n+1-k, 5), n+1-k) })
+			prog := "BEGIN { a = [" + nums(n, ", ") + "]; print a; o = {" + obj + "}; print o; print [a, \"s\"][1], [o][0].customer_key_" + pad(n, 5) + " }\n"
+			return scaleCase{Prog: prog, Want: "[" + nums(n, ", ") + "]\n{" + seqs2(n, ", ", func(k int) string { return fmt.Sprintf("\"customer_key_%s\": %d", pad(k, 5), k) }) + "}\ns " + itoa(n) + "\n"}
 		}},
 		{Prop: "C17", Name: "arrays nested n deep printed whole", Max: 2000, QMax: 400, Build: func(n int) scaleCase {
 			prog := "BEGIN { a = 1; for (i = 0; i < " + itoa(n) + "; i++) { a = [a, \"s\"] } print a; o = 2; for (i = 0; i < " + itoa(n) + "; i++) { o = {k: o} } print o }\n"
 			return scaleCase{Prog: prog, Want: strings.Repeat("[", n) + "1" + strings.Repeat(", \"s\"]", n) + "\n" + strings.Repeat("{\"k\": ", n) + "2" + strings.Repeat("}", n) + "\n"}
+		}},
+		{Prop: "C17", Name: "a doubly linked chain of n nodes printed from its head", Max: 1000, QMax: 200, Build: func(n int) scaleCase {
+			prog := fmt.Sprintf("BEGIN { head = [0, null, null]; cur = head; for (i = 1; i < %d; i++) { nx = [i, null, cur]; cur[1] = nx; cur = nx } print head; print \"done\" }\n", n)
+			return scaleCase{Prog: prog, ModelWant: true}
 		}},
 		{Prop: "C17", Name: "strings of n characters printed bare and inside a container", Max: 70000, QMax: 5000, Build: func(n int) scaleCase {
 			unit := []string{"x", "é", "\\n", "€", "\\t"}
@@ -279,6 +296,11 @@ func scaleFamilies() []*scaleFam {
 			prog := "BEGIN { printf(\"" + format + "\\n\"" + ifs(len(args) > 0, ", ", "") + strings.Join(args, ", ") + ") }\n"
 			return scaleCase{Prog: prog, Want: strings.Join(want, ",") + "\n"}
 		}},
+		{Prop: "C18", Name: "n bytes of literal text in front of every directive", Max: 5000, QMax: 1100, Build: func(n int) scaleCase {
+			t := strings.Repeat("average: ", n/9+1)[:n]
+			prog := "BEGIN { printf(\"" + t + "%s" + t + "%%" + t + "%3v" + t + "%f|\\n\", \"S\", 7, 0.5); printf(\"" + t + "%s\\n\", 5) }\n"
+			return scaleCase{Prog: prog, Want: t + "S" + t + "%" + t + "  7" + t + "0.5|\n", Kind: drive.KRuntime}
+		}},
 		{Prop: "C18", Name: "a string argument of n bytes under widths around n", Max: 60000, QMax: 5000, Build: func(n int) scaleCase {
 			s := strings.Repeat("y", n)
 			prog := fmt.Sprintf("BEGIN { s = \"%s\"; printf(\"%%s|%%%ds|%%%ds|%%-%ds|%%%ds|\\n\", s, s, s, s, s) }\n", s, n, n+3, n+2, imax(n-1, 1))
@@ -304,9 +326,14 @@ func scaleFamilies() []*scaleFam {
 			prog := "BEGIN {\n" + seqs2(n, "\n", func(k int) string { return "print " + itoa(k) }) + "\n}\nEND { print ) }\n"
 			return scaleCase{Prog: prog, Want: "", Kind: drive.KSyntax, NoModel: true, CLI: n < 40}
 		}},
+		{Prop: "C11", Name: "a match of n string cases on a container subject", Max: 3000, QMax: 600, Build: func(n int) scaleCase {
+			cases := seqs2(n, ", ", func(k int) string { return fmt.Sprintf("\"s%d\" => %d", k, k) })
+			prog := "function m(x) { return match (x) { " + cases + ", other => \"default\" } }\nfunction m2(x) { return match (x) { " + cases + " } }\n{ print \"before\", m(\"s" + itoa(n) + "\"), m(7), m2(\"zz\") is null; print m" + ifs(n%2 == 0, "", "2") + "($); print \"after\" }\nEND { print \"end\" }\n"
+			return scaleCase{Prog: prog, Files: []inFile{{Name: "in.json", Text: "[[1], 2]"}}, Want: fmt.Sprintf("before %d default true\n", n), Kind: drive.KRuntime}
+		}},
 		{Prop: "C12", Name: "a runtime fault on line n", Max: 70000, QMax: 5000, Build: func(n int) scaleCase {
-			prog := "BEGIN {" + strings.Repeat("\n", n-1) + "  y = 1 % 0\n}\n"
-			src := "  y = 1 % 0"
+			src := "  y = 1 % 0 # \x1b[31mcolour\x1b[0m \"é\" \x1b[2J"
+			prog := "BEGIN {" + strings.Repeat("\n", n-1) + src + "\n}\n"
 			if n == 1 {
 				src = "BEGIN {" + src
 			}
@@ -316,11 +343,30 @@ func scaleFamilies() []*scaleFam {
 			prog := "BEGIN {\n" + strings.Repeat("x = 1 # c\n", n-1) + "  y = 1 + )\n}\n"
 			return scaleCase{Prog: prog, Want: "", Kind: drive.KSyntax, Line: n + 1, SrcLine: "  y = 1 + )", NoModel: true}
 		}},
+		{Prop: "C12", Name: "an illegal character in the first column of line n", Max: 70000, QMax: 5000, Build: func(n int) scaleCase {
+			prog := "BEGIN {\n" + strings.Repeat("x = 1\n", n-1) + "@ = 2\n}\n"
+			return scaleCase{Prog: prog, Want: "", Kind: drive.KSyntax, Line: n + 1, SrcLine: "@ = 2", NoModel: true}
+		}},
+		{Prop: "C12", Name: "a runtime fault whose operand starts line n in the first column", Max: 70000, QMax: 5000, Build: func(n int) scaleCase {
+			prog := "BEGIN {\n" + strings.Repeat("x = 1\n", n-1) + "$nope\n}\n"
+			return scaleCase{Prog: prog, Want: "", Kind: drive.KRuntime, Line: n + 1, SrcLine: "$nope"}
+		}},
 		// ---------------------------------------------------------------- C13: lexical
 		{Prop: "C13", Name: "identifiers, numerals and string literals of n characters", Max: 60000, QMax: 5000, Build: func(n int) scaleCase {
 			id := "v" + strings.Repeat("a_1", (n+2)/3)[:n]
 			prog := "BEGIN { " + id + " = 5; " + id + "b = 6; print " + id + ", " + id + "b, 0." + strings.Repeat("0", n) + "5 < 1, 1" + strings.Repeat("0", n%300) + " > 0, \"" + strings.Repeat("q", n) + "\".length(), '" + strings.Repeat("q", n) + "'.length() }\n"
 			return scaleCase{Prog: prog, Want: fmt.Sprintf("5 6 true true %d %d\n", n, n)}
+		}},
+		{Prop: "C13", Name: "string literals of n bytes that hold every escape and bytes that are not UTF-8", Max: 60000, QMax: 5000, Build: func(n int) scaleCase {
+			units := []string{"ab", "\\\\U", "\\n", "é", "\\\\", "\\t", "C:\\\\me", "\xe9", "\x80\\n", "q"}
+			shown := []string{"ab", "\\U", "\n", "é", "\\", "\t", "C:\\me", "\xe9", "\x80\n", "q"}
+			var lit, text strings.Builder
+			for k := 0; lit.Len() < n; k++ {
+				lit.WriteString(units[k%10])
+				text.WriteString(shown[k%10])
+			}
+			prog := "BEGIN { s = \"" + lit.String() + "\"; t = '" + lit.String() + "'; print s; print s == t, s.length() }\n"
+			return scaleCase{Prog: prog, Want: text.String() + "\ntrue " + itoa(text.Len()) + "\n", NoModel: true}
 		}},
 		// ---------------------------------------------------------------- C03: input stream
 		{Prop: "C03", Name: "a stream of n top-level values", Max: 70000, QMax: 5000, Build: func(n int) scaleCase {
@@ -332,6 +378,11 @@ func scaleFamilies() []*scaleFam {
 			in := seqs2(n, "\n", func(k int) string { return "[" + itoa(k) + "]" }) + "\n[1, }"
 			prog := "{ print $ }\nEND { print \"end\" }\n"
 			return scaleCase{Prog: prog, Files: []inFile{{Name: "in.json", Text: in}}, Want: seqs2(n, "", func(k int) string { return itoa(k) + "\n" }), Kind: drive.KJson, ErrFile: "in.json", CLI: n%64 < 3 || n < 80}
+		}},
+		// ---------------------------------------------------------------- C14: the wrapper
+		{Prop: "C14", Name: "a program file of n statements through -f", Max: 70000, QMax: 40000, Build: func(n int) scaleCase {
+			prog := "BEGIN {\n" + strings.Repeat("c = c + 1\n", n) + "}\n{ print $, c }\nEND { print \"end\", c }\n"
+			return scaleCase{Prog: prog, Files: []inFile{{Name: "in.json", Text: "[1, 2]"}}, Want: fmt.Sprintf("1 %d\n2 %d\nend %d\n", n, n, n), CLI: n < 40 || n%1000 < 3 || n%1024 < 3 || n > 9000, NoModel: n > 5000}
 		}},
 		// ---------------------------------------------------------------- C04: JSON output
 		{Prop: "C04", Name: "a document of n keys, each an array of n % 7 elements, written back", Max: 20000, QMax: 3000, Build: func(n int) scaleCase {
